@@ -72,8 +72,8 @@ def cases(tier, seed):
     for gi, g in enumerate(grids):
         for mi, (eps, mu) in enumerate(mats):
             for exact in (False, True):
-                if tier == "quick" and exact and (mi + gi) % 2:
-                    continue  # exact-interpolation variant rotates through the material/grid menu in the quick tier
+                if exact and (mi + gi) % 2:
+                    continue  # the exact-interpolation variant rotates through the material/grid menu
                 for c0 in range(0, nb_q, chunk_q):
                     out.append(dict(part="quad", shape=shape_q, grid=g, eps=eps, mu=mu, exact=exact, cplx=False, boxes=[c0, min(nb_q, c0 + chunk_q)], conf=(c0 == 0 and mi == 1), seed=seed))
     # complex fields (sesquilinear forms): singles e, i*e and pairs e_i+e_j, e_i+i*e_j
